@@ -39,3 +39,10 @@ def report_read_before_stash_appended_after():
     entries from the working log, reverts the file); the report continues, finds a.txt without agent lines and appends an entry for it
     with no attribution, which later shadows the attribution that `stash pop` restores: S1's line is committed as human."""
     return _kinds("ckpt-stash", [1, 1] + [0] * 38, None)
+
+
+def two_cherry_picks_in_two_worktrees_both_read_the_notes_tip():
+    """D79 (fixed): `git cherry-pick srcA` in the main work tree and `git cherry-pick srcB` in a linked work tree; both processes read the
+    tip of refs/notes/ai before either runs its `fast-import`: the second import was refused as a non-fast-forward update and that
+    commit's note was dropped (S2's line blamed on a person). The batched notes writer now re-reads the tip and tries again."""
+    return _kinds("cherry-cherry-wt", [0, 0, 0, 0, 1, 1, 1, 0, 0], None)
